@@ -54,6 +54,8 @@ func (s lcStep) String() string {
 		return fmt.Sprintf("cause#%d(%s)", s.Sess, s.Cause)
 	case "two", "gateOnClose":
 		return fmt.Sprintf("%s#%d(%s,%s)", s.Kind, s.Sess, s.Cause, s.Cause2)
+	case "gateTableDelete":
+		return fmt.Sprintf("gateTableDelete#%d(%s,rev%d,%s)", s.Sess, s.Car, s.Rev, s.Cause)
 	case "gateClose", "sendWindow":
 		return fmt.Sprintf("%s#%d(%s)", s.Kind, s.Sess, s.Cause)
 	case "advance":
@@ -158,6 +160,7 @@ func genLC(rt *rapid.T, gates bool, known map[string]bool, col *Collector) []lcS
 			}
 		}
 		if gates && nsess < 3 {
+			kinds = append(kinds, "gateTableDelete", "gateTableDelete")
 			if !known[sigDiedInHS] {
 				kinds = append(kinds, "gateHandshake")
 			} else {
@@ -170,9 +173,12 @@ func genLC(rt *rapid.T, gates bool, known map[string]bool, col *Collector) []lcS
 		k := rapid.SampledFrom(kinds).Draw(rt, l+".kind")
 		st := lcStep{Kind: k}
 		switch k {
-		case "hs", "gateHandshake":
+		case "hs", "gateHandshake", "gateTableDelete":
 			st.Sess = nsess
 			st.Car = rapid.SampledFrom(carriers).Draw(rt, l+".car")
+			if k == "gateTableDelete" {
+				st.Cause = rapid.SampledFrom([]string{"appCloseNow", "closePacket", "drop", "wrongHeartbeat"}).Draw(rt, l+".td")
+			}
 			if k == "gateHandshake" {
 				st.Car = rapid.SampledFrom([]string{"websocket", "webtransport"}).Draw(rt, l+".gcar")
 				st.Cause = rapid.SampledFrom([]string{"drop", "dropInOpenFlush", "dropInOpenFlush", "none"}).Draw(rt, l+".gcause")
@@ -858,6 +864,40 @@ func runLC(steps []lcStep) (*lcWorld, bubbleResult) {
 						lw.f03("%s: message from a healthy session's client was not delivered", what)
 					}
 				}
+			case "gateTableDelete":
+				// the closing session's removal from the client table is held between its lock-free miss and
+				// taking the table's lock (the session is new since the table was last consolidated), while other
+				// requests look up unknown ids and iterate the table, which consolidates it
+				hs := st
+				hs.Kind = "hs"
+				lw.handshake(hs)
+				s = lw.sess[st.Sess]
+				if s == nil || s.sr == nil || len(s.sr.Closes) > 0 || s.sr.Sock.ReadyState() != "open" {
+					break
+				}
+				fn := lw.causeFn(s, st.Cause)
+				if fn == nil {
+					break
+				}
+				gp := lw.arm("map.LoadAndDelete.missed")
+				s.addCause(st.Cause)
+				done := spinRun(fn)
+				for k := 0; k < 2000 && !lw.parked(gp); k++ {
+					runtime.Gosched()
+				}
+				if lw.parked(gp) {
+					lw.stats["table-consolidated-inside-delete-window"] = true
+					for k := 0; k < 3; k++ {
+						Do(w.Srv, NewReq("GET", w.Path, fmt.Sprintf("EIO=4&transport=polling&sid=nosuch%d", k)))
+					}
+					w.Srv.Clients().Keys()
+					w.Srv.Clients().Len()
+					lw.g.Release(gp)
+				} else {
+					lw.disarm(gp)
+				}
+				<-done
+				Settle()
 			case "sendWindow":
 				// a close cause takes effect while the application is inside Send, after Send's own ready-state
 				// test: a packetCreate listener (it runs on the sending goroutine) lets the cause happen and
@@ -1032,7 +1072,7 @@ func TestC03Lifecycle(t *testing.T) {
 func TestC04Registry(t *testing.T) {
 	curT = t
 	col := NewCollector("TestC04Registry",
-		"rapid: the histories of TestC03Lifecycle (handshakes, every close cause, concurrent causes, shutdown, gated windows incl. a peer that disconnects between session construction and registry bookkeeping); oracle at every quiescent point: set(Clients().Keys()) == {sid created and not closed}, ClientsCount() == its size (never negative), every live session is loaded under its own Id(), a request naming a closed sid is answered 400 {code:1}. non-trivial: >=2 different causes closed sessions, a close during the handshake, or a shutdown with >=2 sessions").Use(t)
+		"rapid: the histories of TestC03Lifecycle (handshakes, every close cause, concurrent causes, shutdown, gated windows incl. a peer that disconnects between session construction and registry bookkeeping, and a closing session's removal from the table held between its lock-free miss and the table lock while lookups and iterations consolidate the table); oracle at every quiescent point: set(Clients().Keys()) == {sid created and not closed}, ClientsCount() == its size (never negative), every live session is loaded under its own Id(), a request naming a closed sid is answered 400 {code:1}. non-trivial: >=2 different causes closed sessions, a close during the handshake, or a shutdown with >=2 sessions").Use(t)
 	known := lcKnown()
 	for _, gated := range []bool{false, true} {
 		rapid.Check(t, func(rt *rapid.T) {
@@ -1057,7 +1097,7 @@ func TestC04Registry(t *testing.T) {
 			}
 		})
 	}
-	req := []string{"server-close", "shutdown>=2-sessions", "activity-after-close"}
+	req := []string{"server-close", "shutdown>=2-sessions", "activity-after-close", "table-consolidated-inside-delete-window"}
 	if !known[sigDiedInHS] {
 		req = append(req, "cause-during-handshake")
 	}
